@@ -103,12 +103,13 @@ PLANS["C06"] = coll("C06", 12, 300, ["panic_injected", "panic_injected_in_drop",
 _c07a = arena("C07", 25, 600, level="fault_enumeration")
 PLANS["C07"] = coll("C07", 150, 4000, ["alloc_refused", "fixed_full_rejected", "base_refused", "mut_grew_other_chunk", "commit_mut", "panicking_method_panicked_on_refusal", "typed_err_refused"],
                     level="fault_enumeration", miri_h=1, extra_quick=_c07a["quick"], extra_thorough=_c07a["thorough"][:5])
-PLANS["C08"] = coll("C08", 400, 10000, ["grew", "grew_realloc", "panic_matched_model", "zst_capacity", "fixed_full_rejected", "conversion", "drain_partial", "retain", "dedup"])
+PLANS["C08"] = coll("C08", 400, 10000, ["grew", "grew_realloc", "panic_matched_model", "zst_capacity", "fixed_full_rejected", "conversion", "drain_partial", "retain", "dedup",
+                                         "append_src:owned_slice::IntoIter", "append_src:owned_slice::Drain", "append_src:MutBumpVecRev", "append_src:&mut BumpVec", "ctor:3", "ctor:4", "ctor:5", "ctor:6"])
 PLANS["C09"] = coll("C09", 400, 10000, ["nonboundary_index", "invalid_utf8_input", "lossy_replaced", "str_panic_matched", "cstr", "split", "panic_injected"])
 _c15a = arena("C15", 40, 1000)
 PLANS["C15"] = coll("C15", 300, 8000, ["commit_mut", "commit_mut_rev", "mut_dropped_unfinalised", "mut_grew_other_chunk", "prepared_commit", "mut_helper", "prepared_commit_after_chunk_switch"],
                     extra_quick=_c15a["quick"], extra_thorough=_c15a["thorough"][:4])
-PLANS["C16"] = coll("C16", 400, 10000, ["split", "merge_ok", "merge_rejected", "split_interior", "split_prefix", "split_suffix", "split_empty", "split_full", "into_flattened"])
+PLANS["C16"] = coll("C16", 400, 10000, ["split", "merge_ok", "merge_rejected", "split_interior", "split_prefix", "split_suffix", "split_empty", "split_full", "into_flattened", "split_at_spare"])
 
 PLANS["C17"] = dict(
     level="exploration",
@@ -223,6 +224,11 @@ def parse(out):
         elif t == "done":
             done = True
     return viols, samples, stat, hashes, done
+
+def build_failure(err):
+    """cargo / rustc could not build or link the harness (as opposed to the harness running and dying)"""
+    return any(s in err for s in ("error: could not compile", "error: extern location for", "error[E", "error: failed to run custom build command",
+                                  "error: linking with"))
 
 def sanitizer_report(variant, err):
     """First in-repo frame / headline of a sanitizer or Miri report, as a stable signature."""
@@ -378,7 +384,18 @@ def run_check(prop, tier, seed):
         elif not done:
             # the process died: sanitizer report, ub-check abort, signal
             sig = sanitizer_report(variant, r["err"])
+            if sig is None and build_failure(r["err"]):
+                # the harness itself did not build or link (e.g. its sources changed under a running check): no verdict
+                inconclusive.append(f"{tag}: harness build failed: {r['err'][-300:]}")
+                log.write(f"-- {tag} BUILD FAILURE\n{r['err'][-3000:]}\n")
+                continue
             rr = run_shard(variant, binary, path, [*a, "--wal", "--loud"], timeout)
+            if sig is None and (build_failure(rr["err"]) or (binary != "pool" and rr["rc"] == 0 and '"t":"done"' in rr["out"])):
+                # deterministic single-threaded shard whose death does not reproduce (or whose rerun did not build):
+                # killed from outside (memory, build race), not an observation about the code
+                inconclusive.append(f"{tag}: process death did not reproduce on rerun (rc={r['rc']}): {r['err'][-300:]}")
+                log.write(f"-- {tag} DIED, NOT REPRODUCED rc={r['rc']}\n{r['err'][-3000:]}\n")
+                continue
             ops = [l for l in rr["err"].splitlines() if l.startswith("op ")]
             last = ops[-1] if ops else "(outside any operation)"
             msgs = [l for l in rr["err"].splitlines() if not l.startswith("op ") and ("panicked at" in l or "precondition" in l or "ERROR" in l or "error:" in l or "assertion" in l)]
